@@ -284,7 +284,7 @@ class Popen(AgentExecutingComponent):
         _start_new_session = self.session.rcfg.new_session_per_task or False
 
         self._prof.prof('task_run_start', uid=tid)
-        task['proc'] = sp.Popen(args              = launch_path,
+        proc = sp.Popen(        args              = launch_path,
                                 executable        = None,
                                 shell             = False,
                                 stdin             = None,
@@ -293,10 +293,12 @@ class Popen(AgentExecutingComponent):
                                 start_new_session = _start_new_session,
                                 close_fds         = True,
                                 cwd               = sbox)
+        task['proc'] = proc
         self._prof.prof('task_run_ok', uid=tid)
 
-        # store pid for last-effort termination
-        _pids.append(task['proc'].pid)
+        # store pid for last-effort termination (a concurrent cancel may
+        # already have removed `task['proc']` again)
+        _pids.append(proc.pid)
 
         # handle task timeout if needed
         self.handle_timeout(task)
